@@ -13,7 +13,7 @@ import contracts.builders as BU
 F_CP, F_MOD = CE.F_CP, CE.F_MOD
 FUNCTIONS = [(F_CP, '_TableFormSection._parse_data'), (F_CP, '_TableFormSection._parse_xy'), (F_MOD, '_Buck4_Spline_Factory.build_spline'), (F_MOD, '_Exp_Spline_Factory.build_spline'),
              (F_CP, '_TabulationCutoff._init_cutoff'), (FC.FILE, 'DLPOLY_PairTabulationFactory.extract_cutoffs'),
-             (BU.FILE, 'Pair_Potentials_From_Tuples_Builder._create_potential'), (BU.FILE, 'Pair_Potentials_From_Tuples_Builder._init_potentials')]
+             (F_CP, 'ConfigParser._convert_species_type'), (BU.FILE, 'Pair_Potentials_From_Tuples_Builder._create_potential'), (BU.FILE, 'Pair_Potentials_From_Tuples_Builder._init_potentials')]
 CONFIG_FILES = scan.package_files('atsim/potentials/config') + ['atsim/potentials/_modifiers.py', 'atsim/potentials/tools/potable/__init__.py', 'atsim/potentials/tools/potable/_actions.py']
 
 def lemmas():
@@ -63,6 +63,9 @@ def lemmas():
     return out
 
 MUTANTS = [
+    (F_CP, 'ConfigParser._convert_species_type', "'atomic_number': int", "'atomic_number': float", 'post/atomic_number'),
+    (F_CP, 'ConfigParser._convert_species_type', "except ValueError:", "except KeyError:", 'raises'),
+    (F_CP, 'ConfigParser._convert_species_type', "'lattice_constant': float", "'lattice_constant': default", 'post/masses'),
     (BU.FILE, 'Pair_Potentials_From_Tuples_Builder._init_potentials', "raise Unknown_Modifier_Exception(msg)", "raise KeyError(msg)", 'raises'),
     (BU.FILE, 'Pair_Potentials_From_Tuples_Builder._init_potentials', "potform_name=upe.args[0]", "potform_name=upe.args[1]", 'raises'),
     (F_MOD, '_Buck4_Spline_Factory.build_spline', "if not r_min < attach_point.r or not r_min > detach_point.r:", "if not r_min < attach_point.r and (not r_min > detach_point.r):", 'post'),
@@ -75,7 +78,7 @@ MODULE_MUTANTS = [
     (F_CP, "    except configparser.Error as e:\n      raise ConfigParserException(e.message)\n\n    # Process overrides", "\n    # Process overrides", 'parser-errors'),
     (F_CP, "    'LAMMPS_eam_alloy' : 'setfl',\n", "", 'route/LAMMPS_eam_alloy'),
 ]
-ENGINE_B_FUNCTIONS = [(F_CP, '_get_or_none'), (F_CP, 'ConfigParser._convert_species_type'), (F_CP, 'ConfigParser._init_config_parser'), (F_CP, '_RawConfigParser.get'),
+ENGINE_B_FUNCTIONS = [(F_CP, '_get_or_none'), (F_CP, 'ConfigParser._init_config_parser'), (F_CP, '_RawConfigParser.get'),
                       (F_CP, 'ConfigParser._pair_species_func'), (F_CP, 'ConfigParser._parse_eam_fs_density_line')]
 ASSUMPTIONS = ['A5/A6: configparser raises subclasses of configparser.Error (InterpolationError for place-holders); scipy raises ValueError for data it cannot interpolate; pyparsing raises ParseException (converted in _parse_multi_range)',
                'escape freedom is established per KIND of may-raise site by enumeration of the sites in the current source (names, split-unpacking, text conversions, parser errors) plus contracts on the functions whose guards must be exact; subscripts and attribute reads on parsed tuples are not enumerated in this version']
